@@ -371,13 +371,13 @@ impl AbstractInstructionSet {
                 Either::Left(VirtualOp::DIV(..)) => transform_operator! {DIV, DIVI;
                     both_known: u64::checked_div;
                     if right is 1 assign left;
-                    if left is 0 assign 0;
+                    // No `if left is 0 assign 0` here: `0 / x` panics when `x` turns out to be zero.
                 },
                 Either::Left(VirtualOp::EXP(..)) => transform_operator! {EXP, EXPI;
                     both_known: u64::checked_pow;
                     if right is 0 assign 1;
                     if right is 1 assign left;
-                    if left is 0 assign 0;
+                    // No `if left is 0 assign 0` here: `0 ** x` is one when `x` turns out to be zero.
                     if left is 1 assign 1;
                 },
                 Either::Left(VirtualOp::MLOG(..)) => transform_operator! {MLOG, None;
